@@ -64,6 +64,16 @@ def cases(rng, quick):
                 e = reg_expr(rng, regs)
             form = rng.choice(["Sgate(%s) | 0", "Dgate(0.5, %s) | [0, 1]", "MeasureX(phi=%s) | 2", "Rgate(1, a=%s, b=2) | 1", "BSgate(%s, q0) | 3"])
             lines.append(form % e)
+        if rng.random() < 0.5:
+            # sibling expressions that differ in one constant only (caches keyed by anything but the expression itself show up here)
+            q, r = rng.sample(regs, 1)[0], rng.choice(regs)
+            fam = rng.choice([("-%s", "-2 * %s"), ("1 / %s", "1 / %s ** 2"), ("%s - {R}".replace("{R}", r + "x"), None), ("%s ** 2", "%s ** 3"),
+                              ("0.5 * %s", "1.5 * %s"), ("%s + 1", "%s + 2"), ("3.0 * {R} / %s".replace("{R}", "q99"), "3.0 * {R} / %s ** 2".replace("{R}", "q99")),
+                              ("q98 - %s", "q98 - 2 * %s"), ("-1.0 * %s", "-2.0 * %s")])
+            if fam[1] is not None:
+                lines.append("Zgate(%s) | 0" % (fam[0] % q))
+                lines.append("Zgate(%s) | 0" % (fam[1] % q))
+                lines.append("Zgate(a=%s, b=%s) | 1" % (fam[1] % q, fam[0] % q))
         lines.append("Xgate(0.5, x, n * 2, s=\"a\") | 0")       # arguments without registers stay plain
         yield "\n".join(lines) + "\n"
 
